@@ -243,8 +243,19 @@ func (f changeFinder) walkSlice(from, to *value) bool {
 		return equal
 	}
 
+	// Difference may ask about the same pair of elements several times,
+	// and each answer takes comparing everything below the two elements.
+	// Without remembering the answers, the time taken doubles with every
+	// level of nesting.
+	compared := make(map[[2]int]diff.Result)
 	es := diff.Difference(from.Len(), to.Len(), func(i, j int) diff.Result {
-		return compareNodes(from.Children[i], to.Children[j])
+		key := [2]int{i, j}
+		result, ok := compared[key]
+		if !ok {
+			result = compareNodes(from.Children[i], to.Children[j])
+			compared[key] = result
+		}
+		return result
 	})
 
 	regions := make([]Region, from.Len())
@@ -358,14 +369,20 @@ func (c *nodeComparer) Walk(from, to *value) {
 
 	case reflect.Slice:
 		results := make([][]diff.Result, from.Len())
+		compared := make([][]bool, from.Len())
 		for i := range results {
 			results[i] = make([]diff.Result, to.Len())
+			compared[i] = make([]bool, to.Len())
 		}
 
+		// Difference may ask about the same pair several times.
+		// Compare each pair once: see walkSlice.
 		es := diff.Difference(from.Len(), to.Len(), func(i, j int) diff.Result {
-			result := compareNodes(from.Children[i], to.Children[j])
-			results[i][j] = result
-			return result
+			if !compared[i][j] {
+				results[i][j] = compareNodes(from.Children[i], to.Children[j])
+				compared[i][j] = true
+			}
+			return results[i][j]
 		})
 
 		var i, j int
